@@ -52,7 +52,8 @@ def gen_function(args):
             g = z3.simplify(ob.goal)
             triv = z3.is_true(g)
             obs.append(dict(name=ob.name, kind=ob.kind, where=ob.where, path=ob.path, trivial=triv,
-                            smt2=None if triv else solve.to_smt2(ob)))
+                            smt2=None if triv else solve.to_smt2(ob),
+                            ground=None if triv else solve.to_smt2(ob, ground=True)))
         # vacuity canaries: per path, the hypotheses of its last obligation with goal False must NOT be provable
         last = {}
         for ob in rep.obligations:
@@ -125,7 +126,7 @@ def run_property(prop, tier='quick', seed=0, out=sys.stdout):
         o['function'] = 'lemma'
         allobs.append(o)
     # ---- discharge
-    jobs = [(i, o['smt2'], 'cover' if o['kind'] == 'cover' else tier) for i, o in enumerate(allobs) if not o['trivial']]
+    jobs = [(i, o['smt2'], 'cover' if o['kind'] == 'cover' else tier, o.get('ground')) for i, o in enumerate(allobs) if not o['trivial']]
     for o in allobs:
         if o['trivial']:
             o['result'] = dict(verdict='unsat', solver='simplifier', seconds=0.0, model=None, log=[])
@@ -141,18 +142,21 @@ def run_property(prop, tier='quick', seed=0, out=sys.stdout):
     covers = [o for o in allobs if o['kind'] == 'cover']
     allobs = [o for o in allobs if o['kind'] != 'cover']
     covers_ok = 0
+    by_fn = {}
     for o in covers:
-        if o['result']['verdict'] == 'unsat':
-            errors.append(f"vacuous hypotheses on {o['name']} (contradictory precondition/invariant/assumed contract)")
-        else:
+        by_fn.setdefault(o['function'], []).append(o)
+        if o['result']['verdict'] != 'unsat':
             covers_ok += 1
+    for fn, cs in by_fn.items():
+        if all(o['result']['verdict'] == 'unsat' for o in cs):
+            errors.append(f"vacuous: the hypotheses of every path of {fn} are contradictory (precondition / invariant / assumed contract)")
     for o in allobs:
         r = o['result']
         solver_time += r['seconds']
         if r['verdict'] == 'unsat':
             discharged += 1
             by_solver[r['solver']] = by_solver.get(r['solver'], 0) + 1
-        elif r['verdict'] == 'sat':
+        elif r['verdict'] in ('sat', 'candidate'):
             violated.append(o)
         else:
             undecided.append(o)
@@ -171,13 +175,21 @@ def run_property(prop, tier='quick', seed=0, out=sys.stdout):
             new_violations.append((name, obs))
     os.makedirs(os.path.join(VERIF, 'replays', prop), exist_ok=True)
     vio_lines = []
+    confirmed = []
     for name, obs in new_violations:
         path = write_replay(prop, name, obs)
         ok, note = try_replay(path)
+        if not ok and all(o['result']['verdict'] == 'candidate' for o in obs):
+            # only a candidate of the weakened query and the real code does not reproduce it: not a verdict
+            for o in obs:
+                undecided.append(o)
+            continue
         suffix = '' if ok else ' no-failing-input-found'
         line = f"VIOLATION property={prop} replay={path} obligation={name}{suffix}"
         print(line, file=out)
         vio_lines.append(line)
+        confirmed.append((name, obs))
+    new_violations = confirmed
     for o in undecided:
         print(f"UNDECIDED property={prop} obligation={o['name']} ({'; '.join(str(x) for x in o['result']['log'])})", file=out)
     for u in undecided_fn:
@@ -206,7 +218,7 @@ def run_property(prop, tier='quick', seed=0, out=sys.stdout):
             solver_seconds=round(solver_time, 2),
             obligations_by_kind=count_by(allobs, 'kind'),
             vacuity_covers=dict(paths=len(covers), not_refuted=covers_ok,
-                                rule="per path, hypotheses with goal False must not be provable (sat or unknown within 3 s)"),
+                                rule="per path, the hypotheses with goal False are given to z3 (3 s); a function all of whose paths are refuted is a checker error; refuted single paths are branches that the quantifier-free pruning could not exclude"),
             violated=[n for n, _ in new_violations],
             known_findings_printed=known_printed,
             undecided=[o['name'] for o in undecided] + undecided_fn,
